@@ -149,6 +149,12 @@ fn gen_case(rng: &mut Rng, cli_ranges: bool) -> (Vec<Rec>, Option<Vec<Rec>>, Cov
         delim: rng.pick(&[" ", ",", "\t"]).to_string(),
         alt: alt.is_some(),
     };
+    let mut cfg = cfg;
+    if !cli_ranges && rng.chance(1, 3) {
+        // a ceiling so small that the *counting* pass needs several chunks and partitions
+        let total: u64 = alt.as_ref().unwrap_or(&recs).iter().map(|r| r.seq.len() as u64).sum();
+        cfg.mem_gb = super::c07::mem_for_limit(total / rng.range(2, 20).max(1));
+    }
     (recs, alt, cfg)
 }
 
@@ -171,6 +177,9 @@ pub fn lib(ctx: &Ctx) -> Stats {
         let windows: usize = recs.iter().map(|r| model::windows(&r.seq, cfg.k).len()).sum();
         st.case(windows > 0, mix(idx) ^ hash_bytes(&recs[0].seq));
         st.class(if cfg.mem_gb < 1.0 { "flush-per-record" } else { "flush-once" });
+        if cfg.mem_gb < 0.0005 {
+            st.class("multi-chunk-counting");
+        }
         if cfg.alt {
             st.class("separate-counting-input");
         }
@@ -192,7 +201,7 @@ pub fn lib(ctx: &Ctx) -> Stats {
         for v in 0..2 {
             let mut c2 = cfg.clone();
             c2.threads = rng.usize(1, 16);
-            c2.mem_gb = *rng.pick(&[0.001f64, 0.5, 1.0, 6.0]);
+            c2.mem_gb = if v == 0 { *rng.pick(&[0.001f64, 0.5, 1.0, 6.0]) } else { super::c07::mem_for_limit(count_recs.iter().map(|r| r.seq.len() as u64).sum::<u64>() / rng.range(2, 12).max(1)) };
             match run_cov(&inp, altp.as_deref(), &sc.subdir(&format!("o{}", v + 1)), &c2) {
                 Ok(d) => {
                     if d != base {
@@ -207,6 +216,28 @@ pub fn lib(ctx: &Ctx) -> Stats {
                 }
                 Err((sig, msg)) => {
                     st.violate(&sig, msg, case(&c2));
+                    return;
+                }
+            }
+        }
+        // a second, *different* computation into the directory of the first one (other k, the counting input
+        // switched): whatever the first run left on disk or in memory must not leak into it
+        {
+            let mut c3 = cfg.clone();
+            c3.k = if cfg.k > 1 { cfg.k - 1 } else { cfg.k + 1 };
+            c3.alt = !cfg.alt && alt.is_none() && false;
+            let use_alt = altp.is_some() && rng.chance(1, 2);
+            let count3: &[Rec] = if use_alt { alt.as_deref().unwrap() } else { &recs };
+            c3.alt = use_alt;
+            match run_cov(&inp, if use_alt { altp.as_deref() } else { None }, &sc.subdir("o0"), &c3) {
+                Ok(d) => {
+                    if let Err((sig, msg)) = check_vectors(&d, &recs, count3, &c3) {
+                        st.violate(&format!("{}:second_run_same_dir", sig), format!("second computation (k={}) into the same directory: {}", c3.k, msg), case(&c3));
+                        return;
+                    }
+                }
+                Err((sig, msg)) => {
+                    st.violate(&sig, msg, case(&c3));
                     return;
                 }
             }
